@@ -284,63 +284,67 @@ def owner_loops(seed):
     from cascade.low.core import DatasetId, WorkerId
     problems = []
     # ---- executor -> controller through the real Executor.recv_loop ------------------------------------------
-    net = Net()
-    comms = install(net)
-    exe_mod.callback = comms.callback
-
+    # adversary: for every subset S of the messages, the FIRST transmission of exactly the messages in S is lost (so a later message may get
+    # through - and be acknowledged - before an earlier one is retransmitted); everything else is delivered
     class Stop(BaseException):
         pass
 
     class H:
         exitcode = None
         pid = 1
-
-    ex = object.__new__(exe_mod.Executor)
-    ex.mlistener = comms.Listener("E")
-    ex.sender = comms.ReliableSender("E", 800)
-    ex.sender.add_host("controller", "C")
-    ex.workers, ex.datasets, ex.terminating, ex.host = {}, set(), False, "h0"
-    ex.heartbeat_watcher = comms.GraceWatcher(10 ** 9)
-    ex.heartbeat_watcher.step()
-    ex.shm_process, ex.data_server = H(), H()
-    ex.registration = None
-    ex.terminate = lambda: setattr(ex, "terminating", True)
-    ctrl = Endpoint(comms, "C")
-    ctrl.sender.add_host("h0", "E")
     w = WorkerId("h0", "w0")
-    local = [TaskFailure(w, "t1", "boom"), DatasetPublished(w, DatasetId("t", "0"), None)]
-    for m in local:
-        comms.callback("E", m)  # what a worker does: an un-Syn'ed local message to its executor
-    dropped, polls = set(), [0]
+    for lost, tick_ms in [(l, t) for t in (900, 100) for l in ([0, 1, 2], [0], [1], [0, 1], [0, 2], [1, 2], [2], [])]:
+        # tick_ms: how far the clock moves per poll - with 100 ms an acknowledgement comes back well inside the 800 ms resend grace
+        net = Net()
+        comms = install(net)
+        exe_mod.callback = comms.callback
+        ex = object.__new__(exe_mod.Executor)
+        ex.mlistener = comms.Listener("E")
+        ex.sender = comms.ReliableSender("E", 800)
+        ex.sender.add_host("controller", "C")
+        ex.workers, ex.datasets, ex.terminating, ex.host = {}, set(), False, "h0"
+        ex.heartbeat_watcher = comms.GraceWatcher(10 ** 9)
+        ex.heartbeat_watcher.step()
+        ex.shm_process, ex.data_server = H(), H()
+        ex.registration = None
+        ex.terminate = lambda ex=ex: setattr(ex, "terminating", True)
+        ctrl = Endpoint(comms, "C")
+        ctrl.sender.add_host("h0", "E")
+        local = [TaskFailure(w, "t1", "boom"), DatasetPublished(w, DatasetId("t", "0"), None), DatasetPublished(w, DatasetId("t", "1"), None)]
+        for m in local:
+            comms.callback("E", m)  # what a worker does: an un-Syn'ed local message to its executor
+        dropped, polls, ordinal = set(), [0], {}
 
-    def hook():
-        polls[0] += 1
-        if polls[0] > 80:
-            raise Stop()
-        # adversary: drop the first transmission of every data frame (2 frames, first is a Syn), deliver everything else
-        for dest, frames in list(net.wire):
+        def hook(net=net, ctrl=ctrl, dropped=dropped, polls=polls, ordinal=ordinal, lost=lost, tick_ms=tick_ms):
+            polls[0] += 1
+            if polls[0] > (80 if tick_ms >= 900 else 400):
+                raise Stop()
+            for dest, frames in list(net.wire):
+                net.wire.remove((dest, frames))
+                key = frames[0]
+                if len(frames) >= 2 and dest == "C":   # an acknowledged data frame of the executor (first frame is its Syn)
+                    ordinal.setdefault(key, len(ordinal))
+                    if ordinal[key] in lost and key not in dropped:
+                        dropped.add(key)
+                        continue
+                net.inbox[dest].append(frames)
+            ctrl.step()
+            net.now += tick_ms * 1_000_000
+        FakePoller.hook = hook
+        for dest, frames in list(net.wire):  # the local messages reach the executor
             net.wire.remove((dest, frames))
-            key = frames[0]
-            if len(frames) >= 2 and key not in dropped:
-                dropped.add(key)
-                continue
             net.inbox[dest].append(frames)
-        ctrl.step()
-        net.now += 900 * 1_000_000
-    FakePoller.hook = hook
-    for dest, frames in list(net.wire):  # the two local messages reach the executor
-        net.wire.remove((dest, frames))
-        net.inbox[dest].append(frames)
-    try:
-        ex.recv_loop()
-    except Stop:
-        pass
-    FakePoller.hook = None
-    got = [m for m in ctrl.delivered if not isinstance(m, exe_mod.ExecutorFailure)]
-    failed = [m for m in ctrl.delivered if isinstance(m, exe_mod.ExecutorFailure)]
-    if sorted(map(repr, got)) != sorted(map(repr, local)) and not failed:
-        problems.append(f"executor->controller with first transmissions dropped: controller application received {list(map(repr, got))}, expected {list(map(repr, local))} "
-                        f"(in flight at the executor: {len(ex.sender.inflight)}; the executor neither resent nor reported)")
+        try:
+            ex.recv_loop()
+        except Stop:
+            pass
+        FakePoller.hook = None
+        got = [m for m in ctrl.delivered if not isinstance(m, exe_mod.ExecutorFailure)]
+        failed = [m for m in ctrl.delivered if isinstance(m, exe_mod.ExecutorFailure)]
+        if sorted(map(repr, got)) != sorted(map(repr, local)) and not failed:
+            problems.append(f"executor->controller with the first transmission of messages {lost} lost ({tick_ms} ms per poll): controller application received {list(map(repr, got))}, expected "
+                            f"{list(map(repr, local))} (in flight at the executor: {len(ex.sender.inflight)}; the executor neither resent nor reported)")
+            break
     # ---- controller side through the real Bridge.recv_events ----------------------------------------------------
     net = Net()
     comms = install(net)
